@@ -29,6 +29,9 @@ type GovSpec struct {
 	// Txs, if set, are ordinary transactions delivered in the proposal's first block, before the
 	// submission (so that a decision and a parameter change take effect around the same block begin)
 	Txs func(m *model.State) []model.Tx
+	// FailAfter appends a message that fails when the proposal is executed (a transfer the gov account
+	// cannot afford): the proposal passes the vote, its execution is rolled back as a whole
+	FailAfter bool
 }
 
 // Action is one letter of a scenario alphabet: one block (time step + transactions), or a
@@ -44,6 +47,9 @@ type Action struct {
 	Enabled  func(m *model.State, aux map[string]int) bool
 	// Count: aux counter incremented when the action is taken (for caps like "at most one governance change")
 	Count string
+	// Sim: transactions that are only simulated (gas estimation) before the block of this action; nothing
+	// of a simulation may persist, the model ignores them
+	Sim func(m *model.State) []model.Tx
 	// PrefixOnly letters build the scenario's initial state; the search does not use them
 	PrefixOnly bool
 }
@@ -372,6 +378,16 @@ func (e *Exec) Run(a *Action, oracle bool) (StepObs, []Disc) {
 		obs.AppHash = fmt.Sprintf("%X", h)
 		return true
 	}
+	if a.Sim != nil {
+		for _, tx := range a.Sim(e.M) {
+			bz, err := e.W.Sign(BuildTx(e.W, tx))
+			if err != nil {
+				panic(fmt.Sprintf("harness: cannot sign %+v: %v", tx, err))
+			}
+			ok, log := e.W.Simulate(bz)
+			obs.Txs = append(obs.Txs, TxObs{Tx: tx, Pred: "simulated", Log: firstLine(log), Code: map[bool]uint32{true: 0, false: 1}[ok]})
+		}
+	}
 	if a.Gov == nil {
 		var txs []model.Tx
 		if a.Txs != nil {
@@ -446,7 +462,11 @@ func (e *Exec) runGov(a *Action, obs *StepObs, discs *[]Disc) {
 	}
 	inner := BuildMsg(w, im)
 	dep := sdk.NewCoins(sdk.NewInt64Coin(mc.Nund, 10))
-	sub, err := govv1.NewMsgSubmitProposal([]sdk.Msg{inner}, dep, w.Bech("V"), "", "verif param change", "verif param change")
+	pmsgs := []sdk.Msg{inner}
+	if g.FailAfter {
+		pmsgs = append(pmsgs, BuildMsg(w, model.Msg{Kind: model.BankSend, From: model.ModGov, To: "V", Den: mc.Nund, Amt: "1000000000000000000000000"}))
+	}
+	sub, err := govv1.NewMsgSubmitProposal(pmsgs, dep, w.Bech("V"), "", "verif param change", "verif param change")
 	must(err)
 	pid, err := w.App.GovKeeper.GetProposalID(w.Ctx())
 	must(err)
@@ -488,7 +508,9 @@ func (e *Exec) runGov(a *Action, obs *StepObs, discs *[]Disc) {
 		if m.Bal[model.ModGov][mc.Nund].Sign() == 0 {
 			delete(m.Bal[model.ModGov], mc.Nund)
 		}
-		if g.Msg != nil {
+		if g.FailAfter {
+			// the trailing message fails: nothing of the proposal takes effect
+		} else if g.Msg != nil {
 			m.ExecMsgs(e.env(), model.Tx{Msgs: []model.Msg{im}}) // a failing message fails the proposal and changes nothing
 		} else if valid {
 			if why := m.SetParams(g.Kind, g.Params); why != "" {
